@@ -956,6 +956,9 @@ class Database(object):
             new_id = provider.execute(cursor, sql, arguments, returning_id)
         if cache.immediate:
             cache.in_transaction = True
+        if start_transaction and cache.query_results:
+            # a statement that may write (db.execute / db.insert / saves): cached query results are stale now
+            cache.query_results.clear()
         database._update_local_stat(sql, t)
         if not returning_id: return cursor
         return new_id
